@@ -6,7 +6,7 @@ import copy
 import numpy as np
 
 from . import ref, pristine
-from .core import Result, quiet, digest_of
+from .core import Result, quiet, digest_of, run_maybe_in_thread
 from .oracle import diff, fingerprint
 from .simcfg import gen_sim_cfg, simpler_sim_cfgs
 from .simpool import Sim, Installed, SimDeadlock
@@ -75,6 +75,7 @@ def gen_plan(wl, fr, idx):
     plan['precall'] = entry == 'function' and wl.random() < 0.25
     plan['f_range_list'] = wl.random() < 0.2
     plan['fs_float'] = wl.random() < 0.2
+    plan['from_thread'] = wl.random() < 0.15
     plan['progress'] = wl.choice((None, None, 'tqdm', 'tqdm.notebook'))
     plan['tqdm'] = wl.choice(('absent', 'stub'))
     if wl.random() < 0.05 and R >= 2:
@@ -177,7 +178,8 @@ def execute(plan, tape):
     out, exc, bg = None, None, None
     try:
         with quiet(), Installed(sim):
-            try:
+            def _sut():
+                nonlocal out, bg
                 if plan['entry'] == 'function':
                     from bycycle.group import compute_features_2d
                     opt = plan.get('options')
@@ -229,6 +231,8 @@ def execute(plan, tape):
                     else:
                         bg.fit(sigs, fs, f_range, axis=0, n_jobs=plan['n_jobs'], progress=plan['progress'])
                     out = bg.df_features
+            try:
+                run_maybe_in_thread(_sut, plan.get('from_thread'))
             except SimDeadlock as e:
                 res.violate('no-return', 'deadlock', 'the call blocks forever: %s' % e)
             except Exception as e:
@@ -259,6 +263,8 @@ def execute(plan, tape):
         res.stats['probe.single_row'] += 1
     if plan.get('prefit'):
         res.stats['probe.object_refit'] += 1
+    if plan.get('from_thread'):
+        res.stats['probe.called_from_helper_thread'] += 1
     if plan.get('precall') and plan.get('options'):
         res.stats['probe.earlier_call_with_same_option_objects'] += 1
     if plan.get('options') and 'list' in (plan.get('options') or {}) and len(
@@ -388,7 +394,7 @@ def shrink(plan):
     for key, val in (('n_jobs', 1), ('n_jobs', 2), ('progress', None), ('tqdm', 'absent'),
                      ('return_samples', True), ('prefit', False), ('alias_equal', False),
                      ('array_variant', None), ('positional', False), ('f_range_list', False),
-                     ('fs_float', False), ('precall', False)):
+                     ('fs_float', False), ('from_thread', False), ('precall', False)):
         if key in plan and plan[key] != val:
             p = copy.deepcopy(plan)
             p[key] = val
